@@ -55,6 +55,15 @@ def tie_package(rng, gated: set) -> dict:
             f"class Pt:\n    def where_{mod}(self) -> int: ...\n\n\nclass Sub{mod.capitalize().replace('_', '')}(Pt):\n    origin = Pt()\n\n"
             f"    def clone(self, other: \"Pt\") -> \"Pt\":\n        p = Pt()\n        return p\n\n\ndef make_{mod}() -> Pt:\n    pt = Pt()\n    return pt\n"
         )
+    # (b3) a class name defined (and instantiated) in several modules and used elsewhere only THROUGH its module
+    # (no "from ... import Base" in the user, no definition there): several candidates, none of them local
+    for mod in ("origin_one", "origin_two", "origin_three"):
+        files[f"src/pk/{mod}.py"] = f"class Base:\n    def from_{mod}(self) -> int: ...\n\n\nDEFAULT = Base()\n\n\ndef make() -> Base:\n    return Base()\n"
+    files["src/pk/through_module.py"] = (
+        "from pk import origin_one, origin_three\nimport pk.origin_two\n\n\n"
+        "class ImplOne(origin_one.Base):\n    pass\n\n\nclass ImplTwo(pk.origin_two.Base):\n    pass\n\n\n"
+        "def convert(a: origin_one.Base, b: 'pk.origin_two.Base', c: origin_three.Base = origin_three.DEFAULT) -> origin_three.Base: ...\n"
+    )
     # (d) type variables with equal names, several in one signature
     files["src/pk/tv1.py"] = 'from typing import TypeVar\n\nT = TypeVar("T")\nU = TypeVar("U")\nV = TypeVar("V", bound=int)\n\n\ndef pick(a: T, b: U, c: V, d: list[U]) -> T: ...\n'
     files["src/pk/tv2.py"] = 'from typing import TypeVar\n\nT = TypeVar("T", bound=str)\nU = TypeVar("U")\n\n\ndef pick2(a: U, b: T) -> T: ...\n'
